@@ -539,7 +539,8 @@ Section Terminates.
   Theorem format_number_terminates fuel value picture fmt :
     (701 <= fuel)%nat ->
     (forall vars, process_picture picture fmt (fltb value fzero) = LOk vars ->
-       sv_min_exponent_size vars <> 0 -> is_nan value = false -> is_inf value = false ->
+       sv_min_exponent_size vars <> 0 ->
+       is_nan (scaled value vars) = false -> is_inf (scaled value vars) = false ->
        feqb (scaled value vars) fzero = false ->
        posfin (fabs (scaled value vars)) /\
        pow_okb (go_pow10 (sv_scaling_factor vars - 1)) (go_pow10 (sv_scaling_factor vars)) = true) ->
@@ -550,10 +551,9 @@ Section Terminates.
     destruct (process_picture picture fmt (fltb value fzero)) as [vars|t| |w|] eqn:Hpp;
       try (simpl; discriminate).
     2:{ exfalso. eapply process_picture_nf; eauto. }
-    specialize (Hvars vars eq_refl). simpl lbind.
-    destruct (is_nan value) eqn:Hnan; [discriminate|].
-    destruct (is_inf value) eqn:Hinf; [discriminate|].
-    fold (scaled value vars).
+    specialize (Hvars vars eq_refl). simpl lbind. cbv zeta. fold (scaled value vars).
+    destruct (is_nan (scaled value vars)) eqn:Hnan; [discriminate|].
+    destruct (is_inf (scaled value vars)) eqn:Hinf; [discriminate|].
     destruct (negb (sv_min_exponent_size vars =? 0)) eqn:Hexp;
       destruct (feqb (scaled value vars) fzero) eqn:Hz; cbn [negb andb].
     - simpl lbind. tail_nf.
@@ -612,7 +612,8 @@ Section Corollaries.
   Proof.
     intros Hfuel Hv Hvars. apply format_number_terminates; [exact Hfuel|].
     intros vars Hpp Hexp Hnan Hinf.
-    destruct (Hvars vars Hpp Hexp) as [Hty Hsf]. unfold scaled. rewrite Hty. simpl.
+    destruct (Hvars vars Hpp Hexp) as [Hty Hsf]. unfold scaled in Hnan, Hinf |- *.
+    rewrite Hty in Hnan, Hinf |- *. simpl in Hnan, Hinf |- *.
     intros Hz. split; [now apply fabs_posfin|now apply pow_ok_small].
   Qed.
 End Corollaries.
@@ -1430,8 +1431,8 @@ Section NoPanic.
     intros Hg Hd. unfold format_number.
     destruct (seqb picture ""); [apply np_err|].
     apply lbind_np; [now apply process_picture_no_panic|intros vars _].
-    destruct (is_nan value); [apply np_ok|]. destruct (is_inf value); [apply np_ok|].
-    cbv zeta. apply lbind_np.
+    cbv zeta. destruct (is_nan _); [apply np_ok|]. destruct (is_inf _); [apply np_ok|].
+    apply lbind_np.
     - destruct (negb _ && negb _); [|apply np_ok].
       destruct (scale_up _ _ _ _) as [[v e]|]; [|intros w; discriminate].
       destruct (scale_down _ _ _ _); [apply np_ok|intros w; discriminate].
@@ -1908,25 +1909,86 @@ Example formerly_hanging :
   go_format_number 701 (f_of_Z (-1234)) "0.0e0" default_decimal_format = LOk "-1.2e3".
 Proof. repeat split; vm_compute; reflexivity. Qed.
 
+(* ---- shape of the result: prefix, body, suffix; minus sign or negative sub-picture ---- *)
+Theorem format_number_prefix_suffix fmt_fixed fuel value picture fmt s :
+  format_number fmt_fixed fuel value picture fmt = LOk s ->
+  exists vars body,
+    process_picture picture fmt (fltb value fzero) = LOk vars /\
+    s = sv_prefix vars ++ body ++ sv_suffix vars.
+Proof.
+  unfold format_number. destruct (seqb picture ""); [discriminate|]. intros H.
+  apply lbind_ok_inv in H as (vars & Hpp & H). exists vars.
+  cbv zeta in H.
+  destruct (is_nan _); [injection H as <-; exists (df_nan fmt); split; [exact Hpp|reflexivity]|].
+  destruct (is_inf _); [injection H as <-; exists (df_infinity fmt); split; [exact Hpp|reflexivity]|].
+  apply lbind_ok_inv in H as ([v e] & _ & H).
+  destruct (split_string_at_byte _ 46) as [sint sfrac].
+  apply lbind_ok_inv in H as (ip & _ & H). injection H as <-.
+  match goal with
+  | |- exists body, _ /\ (_ ++ ?a ++ ?b ++ ?c ++ _ = _) => exists (a ++ b ++ c)
+  end.
+  split; [exact Hpp|]. f_equal. now rewrite !sapp_assoc.
+Qed.
+
+(* which sub-picture supplies the variables: a negative value uses the second sub-picture
+   when there is one, otherwise the first with the minus sign in front of its prefix *)
+Theorem process_picture_negative picture fmt vars :
+  process_picture picture fmt true = LOk vars ->
+  exists pic1 pic2 v1,
+    split_string_at_rune picture (df_pattern_separator fmt) = LOk (pic1, pic2) /\
+    process_subpicture pic1 fmt = LOk v1 /\
+    ((pic2 <> "" /\ process_subpicture pic2 fmt = LOk vars) \/
+     (pic2 = "" /\ vars = set_prefix v1 (encode_rune (df_minus_sign fmt) ++ sv_prefix v1))).
+Proof.
+  unfold process_picture. intros H.
+  apply lbind_ok_inv in H as ([pic1 pic2] & Hs & H).
+  destruct (seqb pic1 ""); [discriminate|].
+  apply lbind_ok_inv in H as (v1 & H1 & H). apply lbind_ok_inv in H as (v2 & H2 & H).
+  exists pic1, pic2, v1. split; [exact Hs|]. split; [exact H1|].
+  destruct (seqb pic2 "") eqn:E; simpl in H; injection H as <-.
+  - right. apply seqb_eq in E. auto.
+  - left. split; [|exact H2]. intros ->. simpl in E. discriminate.
+Qed.
+Print Assumptions format_number_prefix_suffix.
+Print Assumptions process_picture_negative.
+
 (* ------------------------------------------------------------------------------------ *)
-(* Witnesses of defects of the Go code, computed on the validated model                   *)
+(* Formerly defective calls, now repaired (patches 0002-0005 of /tmp/numfix_patches, which  *)
+(* the model follows); each was a witness of a defect on the original tree.                *)
 (* ------------------------------------------------------------------------------------ *)
 Definition decf (s : string) : f64 := match parse_float s with PFOk x => x | _ => S754_nan end.
 
-(* irregular grouping: separators are emitted even when the number is shorter than the
-   picture's group positions *)
-Example defect_leading_separators :
-  go_format_number 701 (decf "12") "#,##,###" default_decimal_format = LOk ",,12".
-Proof. vm_compute. reflexivity. Qed.
+(* irregular grouping: was ",,12" and ",1,234.5" (separators in front of short numbers) *)
+Example repaired_leading_separators :
+  go_format_number 701 (decf "12") "#,##,###" default_decimal_format = LOk "12" /\
+  go_format_number 701 (decf "1234.5") "#,##,##0.0" default_decimal_format = LOk "1,234.5" /\
+  go_format_number 701 (decf "1234567") "#,##,###" default_decimal_format = LOk "12,34,567".
+Proof. repeat split; vm_compute; reflexivity. Qed.
 
-(* fractional grouping: getGroupPositions returns cumulative positions, insertSeparatorsAt
-   consumes them as relative ones *)
-Example defect_fraction_grouping :
+(* fractional grouping: was "0.333,3333," and "0.5," (cumulative positions used as relative
+   ones, cuts beyond the last digit) *)
+Example repaired_fraction_grouping :
   go_format_number 701 (decf "0.3333333333333333") "0.###,###,#" default_decimal_format
-  = LOk "0.333,3333,".
-Proof. vm_compute. reflexivity. Qed.
+    = LOk "0.333,333,3" /\
+  go_format_number 701 (decf "0.5") "0.###,#" default_decimal_format = LOk "0.5" /\
+  go_format_number 701 (decf "0.5") "0.0,0" default_decimal_format = LOk "0.5,0".
+Proof. repeat split; vm_compute; reflexivity. Qed.
 
-(* percent scaling overflows to +Inf after the IsInf test *)
-Example defect_percent_overflow :
-  go_format_number 701 (decf "1e308") "0%" default_decimal_format = LOk "+Inf%".
+(* percent scaling that overflows: was "+Inf%" *)
+Example repaired_percent_overflow :
+  go_format_number 701 (decf "1e308") "0%" default_decimal_format = LOk "Infinity%" /\
+  go_format_number 701 (decf "-1e308") "0%" default_decimal_format = LOk "-Infinity%".
+Proof. split; vm_compute; reflexivity. Qed.
+
+(* jxpath.round: was "450359962737049.8" and "1" (floor(intermed + 0.5)) *)
+Example repaired_xround :
+  go_format_number 701 (decf "450359962737049.7") "0.0" default_decimal_format
+    = LOk "450359962737049.7" /\
+  go_format_number 701 (decf "0.49999999999999994") "0" default_decimal_format = LOk "0".
+Proof. split; vm_compute; reflexivity. Qed.
+
+(* not changed (matches the reference implementation, reads back correctly): the mantissa of
+   an exponent picture may reach 10^N *)
+Example mantissa_may_reach_max :
+  go_format_number 701 (decf "10") "0.0e0" default_decimal_format = LOk "10.0e0".
 Proof. vm_compute. reflexivity. Qed.
